@@ -694,3 +694,101 @@ func ruleCacheKeyCoversInputs(p *Program, r *Report) {
 }
 
 func init() { register("C16", Rule{"R16g", ruleCacheKeyCoversInputs}) }
+
+// R16h: every spelling of an import gets the same file name.  An import path without an extension means
+// `<path>.arrai`.  The reader (fileValue), the recorder (bundleLocalFile) and the module bundler each apply that
+// rule themselves; they agree only as long as each appends the extension under the same condition — the path has no
+// extension — and under nothing else (what happens to exist on disk, the importing mode …).
+func ruleExtensionRuleAgrees(p *Program, r *Report) {
+	r.Begin("R16h", "one extension rule: every place in package syntax that appends the script extension (arraiExt / \".arrai\") to an import path does so under a condition that depends only on filepath.Ext / path.Ext of that path — not on a file-system test or other state — so that the reader, the recorder and the bundle run resolve one spelling to one file", 2)
+	defer r.End()
+	n := 0
+	for _, fn := range p.RepoFns {
+		if PkgPathOf(fn) != Mod+"/syntax" {
+			continue
+		}
+		pd := (*PostDom)(nil)
+		ord := 0
+		ForEachInstr(fn, func(ins ssa.Instruction) {
+			bo, ok := ins.(*ssa.BinOp)
+			if !ok || bo.Op != token.ADD {
+				return
+			}
+			k, isK := bo.Y.(*ssa.Const)
+			if !isK || k.Value == nil || k.Value.Kind() != constant.String || constant.StringVal(k.Value) != ".arrai" {
+				return
+			}
+			n++
+			ord++
+			r.Fn(FnName(fn))
+			if pd == nil {
+				pd = NewPostDom(fn)
+			}
+			key := fmt.Sprintf("append@%s~%d", FnName(fn), ord)
+			other := ""
+			for _, cd := range pd.ControlDeps(bo.Block()) {
+				cond := IfCond(cd.Br)
+				if cond == nil {
+					continue
+				}
+				// walk the condition's operands; the extension query is a leaf (whatever path it is asked about)
+				seen := map[ssa.Value]bool{}
+				var walk func(x ssa.Value)
+				walk = func(x ssa.Value) {
+					if x == nil || seen[x] {
+						return
+					}
+					seen[x] = true
+					if c, ok := x.(*ssa.Call); ok && !strings.HasPrefix(CalleeName(&c.Call), "builtin ") {
+						name := CalleeName(&c.Call)
+						if strings.HasSuffix(name, "filepath.Ext") || strings.HasSuffix(name, "path.Ext") {
+							return
+						}
+						// a package-local predicate that itself only asks about the text of the path
+						if g := c.Call.StaticCallee(); g != nil && len(g.Blocks) > 0 && PkgPathOf(g) == Mod+"/syntax" {
+							pure := true
+							ForEachInstr(g, func(i2 ssa.Instruction) {
+								if c2, ok := i2.(*ssa.Call); ok {
+									n2 := CalleeName(&c2.Call)
+									if !(strings.HasSuffix(n2, "filepath.Ext") || strings.HasSuffix(n2, "path.Ext") || strings.HasPrefix(n2, "strings.")) {
+										pure = false
+									}
+								}
+							})
+							if pure {
+								return
+							}
+						}
+						if other == "" {
+							other = name
+						}
+						return
+					}
+					if ph, ok := x.(*ssa.Phi); ok {
+						for _, pb := range ph.Block().Preds {
+							if c := IfCond(pb); c != nil {
+								walk(c)
+							}
+						}
+					}
+					if ins, ok := x.(ssa.Instruction); ok {
+						var ops []*ssa.Value
+						for _, o := range ins.Operands(ops) {
+							walk(*o)
+						}
+					}
+				}
+				walk(cond)
+			}
+			r.Check(other == "", key, "appended exactly when the path has no extension", fmt.Sprintf("%s appends the script extension under a condition that also depends on %s: another place that resolves the same import (the recorder, the bundle run) applies the plain rule, so one spelling names two different files", FnName(fn), other), bo.Pos())
+		})
+	}
+	if n < 2 {
+		r.Undecided("sites", fmt.Sprintf("only %d places append the script extension (fileValue, bundleLocalFile, bundleModule confirmed)", n), 0)
+	}
+}
+
+func init() {
+	register("C16", Rule{"R16h", ruleExtensionRuleAgrees})
+	register("C15", Rule{"R16h", ruleExtensionRuleAgrees})
+}
